@@ -3,6 +3,7 @@ import FlVerif.Lemmas.RuleParse
 import FlVerif.Lemmas.ConsequentLoad
 import FlVerif.Lemmas.AntecedentSound
 import FlVerif.Lemmas.Reject
+import FlVerif.Lemmas.CodeRule
 
 /-! # C16 — Malformed rule text is rejected cleanly, never accepted
 
@@ -17,6 +18,16 @@ namespace C16
 open Lang Op
 
 /-! ## `Rule.parse` -/
+
+/-- **Tie A (code → model).**  `Gen.Code.Rule_parse` is regenerated from the source of `Rule.parse` on every run
+    (`fv/pylean.py`); it raises the exception class the model `Op.ruleParse` predicts and otherwise assigns the
+    antecedent / consequent texts and the weight that the model returns - for every text. -/
+theorem code_ruleParse (text : String) :
+    match ruleParse text with
+    | .error e => Gen.Code.Rule_parse.run text {} = .error e.toPy
+    | .ok p => ∃ σ, Gen.Code.Rule_parse.run text {} = .ok σ ∧ σ.self_antecedent_text = " ".intercalate p.ante ∧
+        σ.self_consequent_text = " ".intercalate p.cons ∧ σ.self_weight = p.weight :=
+  Op.code_ruleParse text
 
 /-- **`Rule.parse` accepts exactly** `if A… then C… [with w]` with a non-empty antecedent (up to the first `then`),
     a non-empty consequent (up to the first `with`), a weight that is the text of a number and nothing after it – and
